@@ -40,7 +40,7 @@ type c20Handle struct {
 }
 
 type c20Mut struct {
-	Kind string `json:"kind"` // cut | short | pad | grow | framelen | field | subst | typebyte | wrongid | body | word
+	Kind string `json:"kind"` // cut | short | pad | grow | framelen | field | subst | typebyte | wrongid | body | word | cuterr
 	Arg  int    `json:"arg"`  // cut offset / field index / substituted type
 	Val  uint32 `json:"val"`  // replacement value
 	Body string `json:"body,omitempty"`
@@ -53,6 +53,8 @@ func (m *c20Mut) String() string {
 	switch m.Kind {
 	case "cut":
 		return fmt.Sprintf("cut at byte %d then EOF", m.Arg)
+	case "cuterr":
+		return fmt.Sprintf("cut at byte %d then a transport error (connection reset)", m.Arg)
 	case "short":
 		return fmt.Sprintf("reply truncated to %d bytes, frame length adjusted", m.Arg)
 	case "pad":
@@ -76,6 +78,8 @@ func (m *c20Mut) String() string {
 	}
 	return m.Kind
 }
+
+var errC20Reset = errors.New("connection reset by peer")
 
 type c20Peer struct {
 	in, out *VPipe // in: client->peer, out: peer->client
@@ -484,7 +488,7 @@ var c20TypeBytes = []int{sshFxpStatus, sshFxpHandle, sshFxpData, sshFxpName, ssh
 func (m *c20Mut) lie(rep c07Pkt) (out []byte, eof bool) {
 	b := append([]byte(nil), rep.b...)
 	switch m.Kind {
-	case "cut":
+	case "cut", "cuterr":
 		if m.Arg < len(b) {
 			b = b[:m.Arg]
 		}
@@ -571,6 +575,9 @@ func (p *c20Peer) run() {
 			}
 		}
 		if eof {
+			if p.mut != nil && p.mut.Kind == "cuterr" {
+				p.out.EndErr = errC20Reset
+			}
 			p.out.CloseWrite()
 			p.dead = true
 		}
@@ -957,6 +964,10 @@ func c20Mutations(rep c07Pkt, quick, allBodies bool) []*c20Mut {
 			continue
 		}
 		ms = append(ms, &c20Mut{Kind: "cut", Arg: j})
+		if j <= 9 || j == n-1 || !quick {
+			// the same cut with the transport reporting an error instead of a clean end
+			ms = append(ms, &c20Mut{Kind: "cuterr", Arg: j})
+		}
 		if j >= 5 {
 			ms = append(ms, &c20Mut{Kind: "short", Arg: j})
 		}
